@@ -48,3 +48,18 @@ Theorem c16_end_of_life_wrapped_iterator : forall e, iter_env e -> e_crash e = N
   chk_C16 e (c_trace (final_step e (exec e (init progs) sched) t f)) = true.
 Proof. exact iter_C16_final. Qed.
 Print Assumptions c16_end_of_life_wrapped_iterator.
+
+(** ** the hypothesis [nowrap] is necessary (finding F16: for a source of usize::MAX elements,
+    [next_chunk(usize::MAX); next(); next()] wraps the position counter and position 0 is delivered again):
+    for each known-size kind a run that meets every other hypothesis of [c16_runs_known_kinds], on which a
+    position is delivered twice (a conjunct of [check_prop 16]) and after the end was reported *)
+From OCI.proofs Require Import Witnesses.
+Theorem c16_refuted_when_the_position_counter_wraps :
+  forall k, is_known k = true ->
+  exists e progs sched, e_kind e = k /\ known_env e /\ wf_progs progs /\ plain_progs progs /\
+    ~ nowrap (c_labels (exec e (init progs) sched)) /\
+    chk_C01_nodup e (c_trace (exec e (init progs) sched)) = false /\
+    check_prop 5 e (c_trace (exec e (init progs) sched)) (c_labels (exec e (init progs) sched)) = false /\
+    check_prop 16 e (c_trace (exec e (init progs) sched)) (c_labels (exec e (init progs) sched)) = false.
+Proof. exact f16_exactly_once_and_end_permanence_fail_when_the_position_counter_wraps. Qed.
+Print Assumptions c16_refuted_when_the_position_counter_wraps.
